@@ -130,13 +130,13 @@ def contract_estimators(case):
         if some_undefined_ok:
             return ("ok", nontrivial)
         zd = any(_zero_diff_partner(names, seqs, mt, n) for n in names)
-        return ("fail", f"{site}/{'zero-diff-partner' if zd else 'plain'}/ArithmeticError-although-every-pair-is-defined",
+        return ("fail", f"{site}/zero-diff-partner" if zd else f"{site}/plain/ArithmeticError-although-every-pair-is-defined",
                 f"{ctx}: {res[1]}")
     if res[0] == "none":
         if entry == "dm_drop" and len(strictly_defined) < 2:
             return ("ok", nontrivial)
         zd = any(_zero_diff_partner(names, seqs, mt, n) for n in names)
-        return ("fail", f"{site}/{'zero-diff-partner' if zd else 'plain'}/returns-None",
+        return ("fail", f"{site}/zero-diff-partner" if zd else f"{site}/plain/returns-None",
                 f"{ctx}: None returned; sequences with all pairs defined: {strictly_defined}")
     _, got_names, view = res
     zdp = {n: _zero_diff_partner(names, seqs, mt, n) for n in names}
@@ -145,7 +145,7 @@ def contract_estimators(case):
             return ("fail", f"{site}/names", f"{ctx}: names {got_names}")
         missing = [n for n in strictly_defined if n not in got_names]
         if missing and len(strictly_defined) >= 2:
-            return ("fail", f"{site}/{'zero-diff-partner' if any(zdp.values()) else 'plain'}/drops-a-sequence-whose-pairs-are-all-defined",
+            return ("fail", (f"{site}/zero-diff-partner" if any(zdp.values()) else f"{site}/plain/drops-a-sequence-whose-pairs-are-all-defined"),
                     f"{ctx}: kept {got_names}, missing {missing}")
     elif sorted(got_names) != sorted(names):
         return ("fail", f"{site}/names", f"{ctx}: names {got_names}, alignment has {names}")
@@ -179,7 +179,7 @@ def contract_estimators(case):
             if sp["code"] and sp["total"] > 0:
                 sub += f"[{sp['code']}]"
             pat = "zero-diff-partner" if (zdp[a] or zdp[b]) else "plain"
-            fail = ("fail", f"{site}/{pat}/{sub}",
+            fail = ("fail", f"{site}/plain/{sub}" if pat == "plain" else f"{site}/zero-diff-partner",
                     f"{ctx}: d({a},{b}) = {v}; spec on the shared canonical columns: total={sp['total']} diffs={sp['diffs']} "
                     f"published={sp['exact']} padded={sp['alt']} {sp['why']}; admissible {vals}{' or undefined' if nan_ok else ''}")
             if pat == "plain":
@@ -210,7 +210,8 @@ def gen_pairs(tier, seed):
                 if L <= 2:
                     todo = [(c, e) for c in CALCS for e in ENTRIES]
                 elif thorough:               # every estimator through the calculator and one more entry point in turn
-                    todo = [(c, e) for k, c in enumerate(CALCS) for e in ("calc", others[(t + k) % 3])]
+                    todo = [(c, e) for k, c in enumerate(CALCS)
+                            for e in (("calc", others[(t + k) % 3]) if (t + k) % 2 == 0 else ("calc",))]
                 else:                        # quick: one estimator in turn (all of them over any 7 consecutive pairs)
                     todo = [(CALCS[t % 7], "calc")]
                 for calc, entry in todo:
@@ -244,6 +245,13 @@ def gen_counts(tier, seed):
                     ents = ["calc", "dm"] if (full or (thorough and variant == "noisy")) else ["calc"]
                     for entry in ents:
                         yield [entry, calc, "dna", ["s1", "s2"], [s1, s2], "array"]
+    # one size further for the estimators whose formula needs all four bases (their first defined and first
+    # boundary inputs sit here)
+    for ms in _count_multisets(cols, S_max + (1 if thorough else 2)):
+        cl = list(ms)
+        rnd.shuffle(cl)
+        for calc in (["tn93", "paralinear", "logdet"] if thorough else ["tn93"]):
+            yield ["calc", calc, "dna", ["s1", "s2"], ["".join(c[0] for c in cl), "".join(c[1] for c in cl)], "array"]
 
 
 def gen_triples(tier, seed):
@@ -268,7 +276,8 @@ def gen_triples(tier, seed):
                 v += 1
                 names = _names_for(3, v)
                 for k, calc in enumerate(calcs):
-                    ents = entries or (ENTRIES if size <= 2 else ["calc", others[(v + k) % 3]])
+                    ents = entries or (ENTRIES if size <= 2 else
+                                       ["calc", others[(v + k) % 3]] if (thorough is False or (v + k) % 2 == 0) else ["calc"])
                     for entry in ents:
                         yield [entry, calc, "dna", names, seqs, "array"]
 
@@ -549,15 +558,16 @@ BOUNDED = {
         "gen": gen_pairs, "contract": contract_estimators, "functions": _EST_FUNCS,
         "bound": "every pair of equal-length strings of length 1..3 over ACGT-N; length <= 2: x 7 estimators (pdist, hamming, "
                  "jc69, tn93, paralinear, logdet, logdet without TK adjustment) x 4 entry points; length 3: quick one estimator "
-                 "per pair in turn through the calculator object, thorough all 7 through the calculator and one further "
-                 "entry point in turn",
+                 "per pair in turn through the calculator object, thorough all 7 through the calculator and, every second time, one "
+                 "further entry point in turn",
         "rule": _EST_RULE, "shards": 16,
     },
     "estimators_counts": {
         "gen": gen_counts, "contract": contract_estimators, "functions": _EST_FUNCS,
         "bound": "two sequences realising every 4x4 count matrix of sum 1..4 (thorough 1..5): columns in a seeded order, "
                  "with 1-3 columns holding one of -N?RYW interspersed and (sum <= 3, thorough all) also without; 7 "
-                 "estimators; calculator object, plus aln.distance_matrix for sum <= 3 (thorough: all noisy ones)",
+                 "estimators; calculator object, plus aln.distance_matrix for sum <= 3 (thorough: all noisy ones); "
+                 "sum 6: tn93 (thorough also paralinear, logdet) through the calculator object",
         "rule": _EST_RULE, "shards": 16,
     },
     "estimators_triples": {
@@ -565,7 +575,7 @@ BOUNDED = {
         "bound": "three sequences: every multiset of <= 3 columns over {A,C,N}^3 x (pdist, hamming, jc69), of <= 2 columns over "
                  "{A,C,G,N}^3 x (tn93, paralinear, logdet); thorough: <= 3 columns over {A,C,G,N}^3 x 6 estimators and <= 4 "
                  "columns over {A,C,-}^3 x (pdist, jc69); 4 entry points up to 2 columns, beyond that the calculator object "
-                 "and one further entry point in turn; three name sets, columns in a seeded order",
+                 "and (thorough: every second time) one further entry point in turn; three name sets, columns in a seeded order",
         "rule": _EST_RULE, "shards": 16,
     },
     "estimators_sample": {
